@@ -104,12 +104,12 @@ def main():
             print(f'violation: {v.sig}: {v.msg[:300]}')
             print(f'VIOLATION property={prop} replay={os.path.relpath(path, ROOT)}', flush=True)
             finish(1)
-        if state['execs'] >= a.runs:
-            finish(0)
+        if state['execs'] >= a.runs or time.time() - state['t0'] > a.max_seconds:
+            finish(0)   # a time budget hit only lowers the number of executions; it is never a violation
 
     import tempfile
     corpus = a.corpus or tempfile.mkdtemp(prefix=f'fz-{prop}-')
-    argv = [sys.argv[0], f'-seed={a.seed}', f'-max_len={a.max_len}', '-len_control=0', f'-max_total_time={a.max_seconds}', '-print_final_stats=0', f'-verbosity={int(os.environ.get("FUZZ_VERBOSE", "0"))}', corpus]
+    argv = [sys.argv[0], f'-seed={a.seed}', f'-max_len={a.max_len}', '-len_control=0', '-print_final_stats=0', f'-verbosity={int(os.environ.get("FUZZ_VERBOSE", "0"))}', corpus]
     atheris.Setup(argv, one_input)
     try:
         atheris.Fuzz()
